@@ -157,3 +157,17 @@ Definition run_gfn (ex : executor) (sc : script) (gf : act_fn) (is_str : bool)
   | SrcGroups => gvisit (al_guard lp true) (fun perm snap s' => run_fn ex sc inner inner_is_str perm snap s') gs perms s
   | _ => None
   end.
+
+(* --- GroupBy.count / agg of the translated code --- *)
+Definition run_gcomp (c : grp_comp) (f : list Z -> Z) (attr : Z -> Z) (gs : list (Z * list Z)) (s : st) : list (Z * Z) :=
+  if gc_over_items c && gc_key_is_name c then
+    map (fun kg => (fst kg,
+                    match gc_val c with
+                    | GVLen => Z.of_nat (length (filter (alive s) (snd kg)))
+                    | GVFuncOfAttrs => f (map attr (filter (alive s) (snd kg)))
+                    | GVOther => -1
+                    end)) gs
+  else [].
+Definition gcomp_ok (is_agg : bool) (c : grp_comp) : bool :=
+  gc_over_items c && gc_key_is_name c &&
+  match is_agg, gc_val c with false, GVLen | true, GVFuncOfAttrs => true | _, _ => false end.
